@@ -45,8 +45,20 @@ def _make(data, form):
 def _decoded(x, form, n):
     """decoded text of the FIRST row as list of byte codes"""
     from bionumpy.encoded_array import EncodedArray, EncodedRaggedArray
+    rows = None
+    if isinstance(x, EncodedRaggedArray):
+        # decode the ragged array itself FIRST, while it may still be a lazily indexed view (ravel() materialises it)
+        rows = [[ord(c) for c in r] for r in x.encoding.decode(x).tolist()]
     dec = x.encoding.decode(x.ravel() if isinstance(x, EncodedRaggedArray) else x)
     flat = [int(b) for b in np.asarray(dec.raw()).ravel().tolist()]
+    if isinstance(x, EncodedRaggedArray):
+        lens0 = [int(l) for l in x.lengths.tolist()]
+        off, want_rows = 0, []
+        for l in lens0:
+            want_rows.append(flat[off:off + l])
+            off += l
+        if rows != want_rows:
+            return ("row-wise decode differs", rows, want_rows)
     if form in ("list", "ragged"):
         lens = [int(l) for l in x.lengths.tolist()] if isinstance(x, EncodedRaggedArray) else None
         if lens != [n, 1] or flat[n:] != flat[:1]:
